@@ -13,7 +13,7 @@ def run_shard(sh):
 
 
 def finalize(m):
-    for name in ('layouts judged', 'witness: broken_groups', 'witness: c06_obligations', 'witness: smart_only', 'witness: forced_later', 'one-line values verified at exactly L'):
+    for name in ('layouts judged', 'witness: broken_groups', 'witness: c06_obligations', 'witness: smart_only', 'witness: forced_later', 'one-line values verified at exactly L', 'one-line values verified with ribbon_width != width'):
         if not m.counters.get(name):
             m.inconclusive.append('monitor never reached: ' + name)
     if m.counters.get('matcher budget exhausted', 0) > 0.001 * (m.evaluations or 1):
